@@ -241,6 +241,33 @@ def check(rep, tier, seed):
                     expect = independent_digest(fmt, p, data)
                     if got.get(fmt) != expect or gotd.get(fmt) != expect:
                         rep.violate("digest-multi", {"op": "multi", "fmts": ss, "fmt": fmt, "size": n}, expect, [got.get(fmt), gotd.get(fmt)], "digest depends on the formats sharing the pass")
+        # relative names: the file hashed is the one the name denotes NOW (working directory changed after import)
+        here = os.getcwd()
+        try:
+            for k in range(3):
+                d = scratch.new("cwd%d" % k)
+                data = rng.randbytes(rng.choice([0, 5, 300, 5000]))
+                os.mkdir(os.path.join(d, "sub"))
+                for name in ("same.bin", os.path.join("sub", "same.bin")):
+                    with open(os.path.join(d, name), "wb") as fh:
+                        fh.write(data + name.encode())
+                os.chdir(d)
+                for name in ("same.bin", os.path.join("sub", "same.bin"), os.path.join(".", "sub", "..", "same.bin")):
+                    content = data + os.path.normpath(name).encode()
+                    fmt = rng.choice(ALL7)
+                    ss = rng.sample(ALL7, 2)
+                    try:
+                        got = [H.hash_file(name, fmt), H.multiple_format_hash_file(name, ss)]
+                    except Exception as e:  # noqa
+                        got = ["EXC " + type(e).__name__]
+                    expect = [independent_digest(fmt, os.path.join(d, name), content), {f: independent_digest(f, os.path.join(d, name), content) for f in ss}]
+                    rep.case(("relative-name", k, name))
+                    rep.count("loop.relative_name")
+                    if got != expect:
+                        rep.violate("digest-relative-name", {"op": "hash_file", "name": name, "fmt": fmt, "fmts": ss, "size": len(content)}, expect, got,
+                                    "a relative file name is not hashed as the file it denotes in the current working directory")
+        finally:
+            os.chdir(here)
         # short reads: a file object may return fewer bytes than requested
         import builtins
 
